@@ -9,6 +9,7 @@ import Frugal.Proto
 import Frugal.Generated
 import Frugal.Alloc
 import Frugal.Bitset
+import Frugal.DescMap
 open Frugal Frugal.Proto
 
 structure Ctx where
@@ -86,7 +87,7 @@ def handle (ctx : Ctx) (ln : String) : Option String :=
         let n := sizeM ctx.P ctx.S sid.toNat! vv
         let exp := toString n
         if go == [exp] then none else some s!"DIFF size sid={sid} model={exp} go={rhs} val={v}"
-    | ["enc", sid, v] =>
+    | "enc" :: sid :: v :: _ =>
       match parseValStr v with
       | none => some s!"BADLINE {ln}"
       | some vv =>
@@ -124,6 +125,23 @@ def handle (ctx : Ctx) (ln : String) : Option String :=
       let exp := Frugal.spanRunStr ctx.P reqs ib
       let got := " ".intercalate go
       if exp == got then none else some s!"DIFF span ops={ops} model=[{exp}] go=[{got}]"
+    | ["descmap", ops] =>
+      let exp := Frugal.descmapRunStr ops
+      let got := " ".intercalate go
+      if exp == got then none else some s!"DIFF descmap ops={ops} model=[{exp}] go=[{got}]"
+    | ["route", nt] =>
+      match nt.splitOn ":" with
+      | [n, t] =>
+        let exp := if Frugal.routeDirect ctx.P n.toNat! (t == "1") then "1" else "0"
+        if go == [exp] then none else some s!"DIFF route {nt} model={exp} go={rhs}"
+      | _ => none
+    | ["arg", kind] =>
+      -- entry-point argument checks: (EncodedSize, EncodeObject, DecodeObject) on a non-struct argument
+      let exp := Frugal.argOutcome kind
+      let got := " ".intercalate go
+      if exp == got then none else some s!"DIFF arg kind={kind} model=[{exp}] go=[{got}]"
+    | ["alloc", sid] =>
+      if go == ["0", "0"] then none else some s!"DIFF alloc sid={sid} model=[0 0] go=[{rhs}]"
     | ["bitset", ops] =>
       let exp := Frugal.bitsetRunStr ctx.P ops
       let got := " ".intercalate go
@@ -134,7 +152,7 @@ def handle (ctx : Ctx) (ln : String) : Option String :=
 partial def loop (ctx : Ctx) (h : IO.FS.Stream) (lineNo diffs : Nat) : IO (Nat × Nat) := do
   let ln ← h.getLine
   if ln.isEmpty then return (lineNo, diffs)
-  let ln := (ln.dropRightWhile (fun c => c == '\n' || c == '\r'))
+  let ln := String.ofList (ln.toList.reverse.dropWhile (fun c => c == '\n' || c == '\r')).reverse
   match handle ctx ln with
   | none => loop ctx h (lineNo + 1) diffs
   | some msg =>
